@@ -123,6 +123,9 @@ class Link(object):
 
     def close(self):
         self.events.append("tclose")
+        if getattr(self, "close_raises_once", False):
+            self.close_raises_once = False
+            raise SimTransportError("close failed")
         self.cur = None
 
     def connect(self, tt):
